@@ -41,7 +41,7 @@ def cases(seed, tier):
     r = rng.random()
     # the message-inserting preprocessors do not support run keys: single-key plans under them
     base = generic.base_case(
-        ID, seed, rng, suspender=0.7, flyers=rng.choice([0, 1]), followups=False, callbacks=True, plan_opts={"nested": 0.0} if r < 0.5 else None
+        ID, seed, rng, suspender=0.7, flyers=rng.choice([0, 1]), followups=False, callbacks=True, plan_opts={"nonrewind": 0.3, **({"nested": 0.0} if r < 0.5 else {})}
     )
     base["re"]["call_returns_result"] = rng.random() < 0.5
     specs = base["devices"]
